@@ -19,7 +19,7 @@
 (* Tree IR       t = [sym, term, kind, val, ch]  (+ snd, rcp, ro ignored)   *)
 (*   text values are code points, bytes 0..255, a bit leaf has val = <<b>>  *)
 (***************************************************************************)
-EXTENDS Naturals, Sequences, FiniteSets, SequencesExt
+EXTENDS Naturals, Sequences, FiniteSets, SequencesExt, TreeValueRef
 
 Inf == 999999
 
@@ -79,10 +79,15 @@ RefCount(all, ref, at) ==
    repetition = lo..hi-fold composition. *)
 RECURSIVE Ends(_,_,_,_,_,_)
 RECURSIVE RepEnds(_,_,_,_,_,_,_,_,_)
+\* A terminal of a text grammar symbol may appear as a bytes leaf (and vice versa) when the input was bytes
+\* (text): the leaf then carries the UTF-8 encoding of the text.  Bits only match bits.
+AsBytes(kind, v) == IF kind = "text" THEN Utf8All(v) ELSE v
 LeafMatches(node, leaf) ==
   /\ leaf.term
-  /\ leaf.kind = node.kind
-  /\ IF node.k = "lit" THEN leaf.val = node.v ELSE ReMatch(node.items, leaf.val)
+  /\ (leaf.kind = "bit") = (node.kind = "bit")
+  /\ IF node.k = "lit"
+       THEN IF leaf.kind = node.kind THEN leaf.val = node.v ELSE AsBytes(leaf.kind, leaf.val) = AsBytes(node.kind, node.v)
+       ELSE ReMatch(node.items, leaf.val)
 Ends(G, all, path, node, seq, i) ==
   CASE node.k = "alt" -> UNION { Ends(G, all, path, node.xs[j], seq, i) : j \in 1..Len(node.xs) }
     [] node.k = "cat" ->
